@@ -1311,6 +1311,17 @@ class Repository:
             finally:
                 await chunk_producer
 
+        # Files that did not intersect any chunk (all of the files are empty,
+        # so the stream is empty as well and nothing was chunked)
+        for _, file in state.files:
+            if file.path not in snapshot_files:
+                snapshot_files[file.path] = {
+                    'path': file.path,
+                    'chunks': [],
+                    'digest': file.digest,
+                    'metadata': file.metadata,
+                }
+
         now = datetime.utcnow()
         snapshot_data = {
             'utc_timestamp': str(now),
@@ -1500,6 +1511,7 @@ class Repository:
         chunks_references = defaultdict(list)
         files_digests = {}
         files_metadata = {}
+        unreferenced_files = []
         total_bytes = 0
 
         for snapshot_body in snapshots:
@@ -1520,6 +1532,10 @@ class Repository:
 
                 ordered_chunks = sorted(file_data['chunks'], key=lambda x: x['counter'])
                 chunk_position = 0
+
+                if not ordered_chunks:
+                    # Empty file that does not reference any chunks
+                    unreferenced_files.append(file_path)
 
                 for chunk_data in ordered_chunks:
                     digest = snapshot_chunks[chunk_data['index']]
@@ -1558,6 +1574,12 @@ class Repository:
         )
 
         with finished_tracker, bytes_tracker:
+            for file_path in unreferenced_files:
+                restore_path, metadata = files_metadata.pop(file_path)
+                self._write_file_part(restore_path, b'', 0)
+                self.restore_metadata(restore_path, metadata)
+                finished_tracker.update()
+
             await asyncio.gather(
                 *(
                     loop.run_in_executor(loader, _download_chunk, *x)
